@@ -7,6 +7,8 @@ import Gts.Lemmas.Delete
 import Gts.Model.Seq
 import Gts.Lemmas.Window
 import Gts.Lemmas.Guest
+import Gts.Lemmas.Record
+import Gts.Props.C02
 namespace Gts.C10
 open Gts Loc
 
@@ -232,5 +234,60 @@ example : wf (joined [ranged 2 5 true false, ranged 7 9 false true]) = true ∧
     shiftAbs (joined [ranged 2 5 true false, ranged 7 9 false true]) 3 4 = false ∧
     expandAbs (shift (joined [ranged 2 5 true false, ranged 7 9 false true]) 3 4) 3 (-4) = false := by
   decide
+
+/-! ### record level: the two-step programs on whole records -/
+
+/-- **insert;delete, record level**: after deleting the `|guest|` residues just inserted at `i`,
+every host feature is present with unchanged key and qualifiers and a location denoting exactly
+its original residues (order and strand). -/
+theorem insert_delete_feature_partial (host guest : Gts.Seq) (i : Int) (hg : 0 < guest.len)
+    (f : Feature) (hf : f ∈ host.feats) (hw : wf f.loc = true)
+    (h1 : shiftAbs f.loc i guest.len = false)
+    (h2 : expandAbs (shift f.loc i guest.len) i (-guest.len) = false) :
+    ∃ f' ∈ ((host.insert i guest).delete i guest.len).feats, f'.key = f.key ∧ f'.props = f.props ∧
+      den f'.loc ≼ den f.loc := by
+  have hm : ({ f with loc := f.loc.shift i guest.len } : Feature) ∈ (host.insert i guest).feats :=
+    mem_of_perm_map_append_left (C02.insert_table_perm host guest i) hf
+  refine ⟨{ f with loc := (f.loc.shift i guest.len).expand i (-guest.len) }, ?_, rfl, rfl,
+    shift_then_delete_den_partial f.loc i guest.len hw hg h1 h2⟩
+  show _ ∈ ((host.insert i guest).feats.map fun f => { f with loc := f.loc.expand i (-guest.len) })
+  exact List.mem_map_of_mem hm
+
+/-- **embed;delete, record level** -/
+theorem embed_delete_feature_partial (host guest : Gts.Seq) (i : Int) (hg : 0 < guest.len)
+    (f : Feature) (hf : f ∈ host.feats) (hw : wf f.loc = true)
+    (h1 : expandAbs f.loc i guest.len = false)
+    (h2 : expandAbs (expand f.loc i guest.len) i (-guest.len) = false) :
+    ∃ f' ∈ ((host.embed i guest).delete i guest.len).feats, f'.key = f.key ∧ f'.props = f.props ∧
+      den f'.loc ≼ den f.loc := by
+  have hm : ({ f with loc := f.loc.expand i guest.len } : Feature) ∈ (host.embed i guest).feats :=
+    mem_of_perm_map_append_left (C02.embed_table_perm host guest i) hf
+  refine ⟨{ f with loc := (f.loc.expand i guest.len).expand i (-guest.len) }, ?_, rfl, rfl,
+    embed_then_delete_den_partial f.loc i guest.len hw hg h1 h2⟩
+  show _ ∈ ((host.embed i guest).feats.map fun f => { f with loc := f.loc.expand i (-guest.len) })
+  exact List.mem_map_of_mem hm
+
+/-- a host feature that is a plain range comes back *syntactically* (markers included) from both
+programs, at every index — in particular a `source` feature ending at `i = Len(host)` -/
+theorem ranged_feature_round_trip (host guest : Gts.Seq) (i : Int) (hg : 0 < guest.len)
+    (k : String) (ps : List (List String)) (s e : Int) (p5 p3 : Bool) (hse : s < e)
+    (hf : (⟨k, ranged s e p5 p3, ps⟩ : Feature) ∈ host.feats) :
+    (⟨k, ranged s e p5 p3, ps⟩ : Feature) ∈ ((host.insert i guest).delete i guest.len).feats ∧
+    (⟨k, ranged s e p5 p3, ps⟩ : Feature) ∈ ((host.embed i guest).delete i guest.len).feats := by
+  constructor
+  · have hm := mem_of_perm_map_append_left (C02.insert_table_perm host guest i) hf
+    have : (⟨k, ranged s e p5 p3, ps⟩ : Feature) =
+        (fun f : Feature => { f with loc := f.loc.expand i (-guest.len) })
+          ⟨k, (ranged s e p5 p3).shift i guest.len, ps⟩ := by
+      simp [ranged_shift_then_delete s e p5 p3 i guest.len hse hg]
+    rw [this]
+    exact List.mem_map_of_mem hm
+  · have hm := mem_of_perm_map_append_left (C02.embed_table_perm host guest i) hf
+    have : (⟨k, ranged s e p5 p3, ps⟩ : Feature) =
+        (fun f : Feature => { f with loc := f.loc.expand i (-guest.len) })
+          ⟨k, (ranged s e p5 p3).expand i guest.len, ps⟩ := by
+      simp [ranged_embed_then_delete s e p5 p3 i guest.len hse hg]
+    rw [this]
+    exact List.mem_map_of_mem hm
 
 end Gts.C10
